@@ -32,6 +32,7 @@ type ThreadSpec struct {
 	Edns   bool   `json:"edns,omitempty"`
 	ECS    string `json:"ecs,omitempty"` // CIDR or ""
 	RD     bool   `json:"rd,omitempty"`
+	Sleep  int    `json:"sleep,omitempty"` // history events: milliseconds to wait before the event
 	// reload
 	Full bool `json:"full,omitempty"`
 	Path int  `json:"path,omitempty"` // reload: target of a full reload; env: path updated
